@@ -273,7 +273,7 @@ class C16(Prop):
             "non-trivial = >= 2 ops applied before the verdict, or a path needing ~0/~1, or a failure at op >= 2; distinct by case hash")
     ASSUMPTIONS = ["'remove' of the whole document is outside conformance (left open by the property)",
                    "keys distinct per object; pointers that are not syntactically valid are robustness-only"]
-    REQUIRED_CLASSES = ["conformance_success", "conformance_failure", "robustness", "escape_in_path", "fail_at_op>=2", "root_replaced", "deep_document", "extra_members"]
+    REQUIRED_CLASSES = ["borrowed_member_copied", "conformance_success", "conformance_failure", "robustness", "escape_in_path", "fail_at_op>=2", "root_replaced", "deep_document", "extra_members"]
 
     def budget(self, tier):
         return {"workers": 14, "examples": 1400 if tier == "quick" else 20000}
@@ -335,14 +335,44 @@ class C16(Prop):
         import random
         rnd = random.Random(model.count_nodes(doc) * 7919 + model.count_nodes(patch))
         arena = printing.Arena(lib)
+        borrowed = None
+        own_doc = doc
+        if case["kind"] == "conformance" and doc[0] == "O" and rnd.random() < 0.2 and all(k not in (b"borrowed", b"mine") for k, _ in doc[1]):
+            # the document holds a member that is a REFERENCE to a value owned elsewhere; the patch copies it and then edits the copy
+            # (never the reference): RFC 6902 4.5 makes the two locations independent values, and the owner's tree stays as it is
+            # (member names in sorted order: "test" sorts the objects it compares in place, and sorting THROUGH a reference would be an
+            # edit of the owner's list - outside what a holder of a reference may do)
+            borrowed = [["O", [[b"list", ["A", [["t"]]]], [b"x", ["N", 1.0]]]], ["A", [["n"], ["S", b"s"], ["A", []]]]][rnd.randrange(2)]
+
+            def mkop(name, path, frm=None, value=None):
+                m = [[b"op", ["S", name]], [b"path", ["S", path]]]
+                if frm is not None:
+                    m.append([b"from", ["S", frm]])
+                if value is not None:
+                    m.append([b"value", value])
+                return ["O", m]
+            inner = (b"/mine/added", b"/mine/x", b"/mine/list/-") if borrowed[0] == "O" else (b"/mine/-", b"/mine/0", b"/mine/2/0")
+            extra = [mkop(b"copy", b"/mine", frm=b"/borrowed"), mkop(b"add", inner[rnd.randrange(3)], value=["S", b"edit of the copy"]),
+                     mkop(b"test", b"/borrowed", value=borrowed)]
+            if rnd.random() < 0.3:
+                extra.append(mkop(b"move", b"/moved", frm=b"/borrowed"))
+            doc = ["O", doc[1] + [[b"borrowed", borrowed]]]
+            patch = ["A", extra + patch[1]]
+            case = dict(case, doc=doc, patch=patch, classes=["copy", "add", "test", "move"][:len(extra)] + list(case.get("classes", [])))
+            stats.cls("borrowed_member_copied")
         if rnd.random() < 0.35:
             # ownership flags (constant keys, string references) must not matter to patch application
-            dp = printing.build_flagged(lib, doc, arena, rnd)
+            dp = printing.build_flagged(lib, own_doc, arena, rnd)
             pp = printing.build_flagged(lib, patch, arena, rnd)
             stats.cls("ownership_flags_variant")
         else:
-            dp = printing.build_tree(lib, doc)
+            dp = printing.build_tree(lib, own_doc)
             pp = printing.build_tree(lib, patch)
+        owner = owner_dump = None
+        if borrowed is not None:
+            owner = printing.build_tree(lib, borrowed)
+            owner_dump = lib.dump(owner)[0]
+            lib.cJSON_AddItemReferenceToObject(dp, b"borrowed", owner)
         try:
             if case["kind"] == "robustness":
                 f = lib.cJSONUtils_ApplyPatchesCaseSensitive if case.get("cs", True) else lib.cJSONUtils_ApplyPatches
@@ -400,9 +430,14 @@ class C16(Prop):
                 stats.cls("root_replaced")
             if applied >= 2 or esc or (want is None and applied >= 1):
                 stats.nontriv(case, {"doc": model.emit_text(doc), "patch": ptext, "reference": "ok" if want is not None else err})
+            if owner is not None and lib.dump(owner)[0] != owner_dump:
+                raise Violation("a value that the document only REFERS to was modified by a patch that copies it and edits the copy: %s -> %s; patch %s" % (
+                    owner_dump[:160], lib.dump(owner)[0][:160], model.emit_text(patch)[:300]), key="result:borrowed-modified")
         finally:
             lib.cJSON_Delete(dp)
             lib.cJSON_Delete(pp)
+            if owner is not None:
+                lib.cJSON_Delete(owner)
             arena.close()
             if lib.ledger_live() != 0:
                 n = lib.ledger_live()
